@@ -104,6 +104,9 @@ def gen(rng, tier, idx):
     scn = workloads.session_scenario(rng, purpose="rewind")
     n = rng.weighted([(3, rng.range(1, 8)), (5, rng.range(8, 30)), (2, rng.range(30, 60))])
     scn["walk"] = gen_walk(rng, n)
+    # the walk starts after a seeded fraction of the session has been stepped through, so that rewinds also
+    # happen deep inside long sessions (near the operation limit, in the last section of a spend, on large items)
+    scn["prefix_permille"] = rng.weighted([(4, 0), (3, rng.below(1001)), (2, rng.range(700, 1000)), (1, 1000)])
     scn["regime"] = "clean" if rng.chance(80) else "fault"
     scn["faults"] = []
     if scn["regime"] == "fault":
@@ -129,6 +132,10 @@ def plan(scn, ref, extra_tail=True):
     allow_fail = any(f["kind"] in ("STEP_FAIL", "STEP_THROW") for f in scn.get("faults", []))
     items = [["sync"]]
     net = 0
+    pre = (L * scn.get("prefix_permille", 0)) // 1000
+    for _ in range(pre):
+        items.append(["step"])
+        net += 1
     for mv in scn["walk"]:
         k = mv[0]
         rendered = [k]
